@@ -40,6 +40,9 @@ Model/Lru.vos Model/Lru.vok Model/Lru.required_vos: Model/Lru.v
 Model/OpenParent.vo Model/OpenParent.glob Model/OpenParent.v.beautified Model/OpenParent.required_vo: Model/OpenParent.v Base/Plan.vo
 Model/OpenParent.vio: Model/OpenParent.v Base/Plan.vio
 Model/OpenParent.vos Model/OpenParent.vok Model/OpenParent.required_vos: Model/OpenParent.v Base/Plan.vos
+Model/SnapChain.vo Model/SnapChain.glob Model/SnapChain.v.beautified Model/SnapChain.required_vo: Model/SnapChain.v Base/Plan.vo
+Model/SnapChain.vio: Model/SnapChain.v Base/Plan.vio
+Model/SnapChain.vos Model/SnapChain.vok Model/SnapChain.required_vos: Model/SnapChain.v Base/Plan.vos
 Model/Vdi.vo Model/Vdi.glob Model/Vdi.v.beautified Model/Vdi.required_vo: Model/Vdi.v Base/Plan.vo Base/Table.vo Model/Walk.vo Gen/Consts.vo
 Model/Vdi.vio: Model/Vdi.v Base/Plan.vio Base/Table.vio Model/Walk.vio Gen/Consts.vio
 Model/Vdi.vos Model/Vdi.vok Model/Vdi.required_vos: Model/Vdi.v Base/Plan.vos Base/Table.vos Model/Walk.vos Gen/Consts.vos
@@ -76,6 +79,9 @@ Proofs/Lru.vos Proofs/Lru.vok Proofs/Lru.required_vos: Proofs/Lru.v Model/Lru.vo
 Proofs/OpenParent.vo Proofs/OpenParent.glob Proofs/OpenParent.v.beautified Proofs/OpenParent.required_vo: Proofs/OpenParent.v Base/Plan.vo Model/OpenParent.vo
 Proofs/OpenParent.vio: Proofs/OpenParent.v Base/Plan.vio Model/OpenParent.vio
 Proofs/OpenParent.vos Proofs/OpenParent.vok Proofs/OpenParent.required_vos: Proofs/OpenParent.v Base/Plan.vos Model/OpenParent.vos
+Proofs/SnapChain.vo Proofs/SnapChain.glob Proofs/SnapChain.v.beautified Proofs/SnapChain.required_vo: Proofs/SnapChain.v Base/Plan.vo Model/SnapChain.vo
+Proofs/SnapChain.vio: Proofs/SnapChain.v Base/Plan.vio Model/SnapChain.vio
+Proofs/SnapChain.vos Proofs/SnapChain.vok Proofs/SnapChain.required_vos: Proofs/SnapChain.v Base/Plan.vos Model/SnapChain.vos
 Proofs/StreamReaders.vo Proofs/StreamReaders.glob Proofs/StreamReaders.v.beautified Proofs/StreamReaders.required_vo: Proofs/StreamReaders.v Base/Arith.vo Base/Plan.vo Base/Table.vo Model/AlignedStream.vo Proofs/AlignedStream.vo Model/Walk.vo Proofs/BlockMapped.vo Model/Vhd.vo Proofs/Vhd.vo Model/Vdi.vo Proofs/Vdi.vo Model/Vhdx.vo Proofs/Vhdx.vo Model/Hds.vo Proofs/Hds.vo
 Proofs/StreamReaders.vio: Proofs/StreamReaders.v Base/Arith.vio Base/Plan.vio Base/Table.vio Model/AlignedStream.vio Proofs/AlignedStream.vio Model/Walk.vio Proofs/BlockMapped.vio Model/Vhd.vio Proofs/Vhd.vio Model/Vdi.vio Proofs/Vdi.vio Model/Vhdx.vio Proofs/Vhdx.vio Model/Hds.vio Proofs/Hds.vio
 Proofs/StreamReaders.vos Proofs/StreamReaders.vok Proofs/StreamReaders.required_vos: Proofs/StreamReaders.v Base/Arith.vos Base/Plan.vos Base/Table.vos Model/AlignedStream.vos Proofs/AlignedStream.vos Model/Walk.vos Proofs/BlockMapped.vos Model/Vhd.vos Proofs/Vhd.vos Model/Vdi.vos Proofs/Vdi.vos Model/Vhdx.vos Proofs/Vhdx.vos Model/Hds.vos Proofs/Hds.vos
@@ -112,6 +118,9 @@ Props/C07.vos Props/C07.vok Props/C07.required_vos: Props/C07.v Base/Plan.vos Ba
 Props/C08.vo Props/C08.glob Props/C08.v.beautified Props/C08.required_vo: Props/C08.v Base/Plan.vo Base/Table.vo Model/AlignedStream.vo Proofs/AlignedStream.vo Model/Lru.vo Proofs/Lru.vo Proofs/StreamReaders.vo Model/Vhd.vo Proofs/Vhd.vo Model/Vdi.vo Proofs/Vdi.vo Model/Vhdx.vo Proofs/Vhdx.vo Model/Hds.vo Proofs/Hds.vo
 Props/C08.vio: Props/C08.v Base/Plan.vio Base/Table.vio Model/AlignedStream.vio Proofs/AlignedStream.vio Model/Lru.vio Proofs/Lru.vio Proofs/StreamReaders.vio Model/Vhd.vio Proofs/Vhd.vio Model/Vdi.vio Proofs/Vdi.vio Model/Vhdx.vio Proofs/Vhdx.vio Model/Hds.vio Proofs/Hds.vio
 Props/C08.vos Props/C08.vok Props/C08.required_vos: Props/C08.v Base/Plan.vos Base/Table.vos Model/AlignedStream.vos Proofs/AlignedStream.vos Model/Lru.vos Proofs/Lru.vos Proofs/StreamReaders.vos Model/Vhd.vos Proofs/Vhd.vos Model/Vdi.vos Proofs/Vdi.vos Model/Vhdx.vos Proofs/Vhdx.vos Model/Hds.vos Proofs/Hds.vos
+Props/C11.vo Props/C11.glob Props/C11.v.beautified Props/C11.required_vo: Props/C11.v Base/Plan.vo Base/Table.vo Model/Vhd.vo Proofs/Vhd.vo Model/Vdi.vo Proofs/Vdi.vo Model/Vhdx.vo Proofs/Vhdx.vo Model/Hds.vo Proofs/Hds.vo Model/SnapChain.vo Proofs/SnapChain.vo
+Props/C11.vio: Props/C11.v Base/Plan.vio Base/Table.vio Model/Vhd.vio Proofs/Vhd.vio Model/Vdi.vio Proofs/Vdi.vio Model/Vhdx.vio Proofs/Vhdx.vio Model/Hds.vio Proofs/Hds.vio Model/SnapChain.vio Proofs/SnapChain.vio
+Props/C11.vos Props/C11.vok Props/C11.required_vos: Props/C11.v Base/Plan.vos Base/Table.vos Model/Vhd.vos Proofs/Vhd.vos Model/Vdi.vos Proofs/Vdi.vos Model/Vhdx.vos Proofs/Vhdx.vos Model/Hds.vos Proofs/Hds.vos Model/SnapChain.vos Proofs/SnapChain.vos
 Props/C12.vo Props/C12.glob Props/C12.v.beautified Props/C12.required_vo: Props/C12.v Base/Plan.vo Model/Gates.vo Proofs/Gates.vo Gen/Consts.vo Gen/Gates.vo
 Props/C12.vio: Props/C12.v Base/Plan.vio Model/Gates.vio Proofs/Gates.vio Gen/Consts.vio Gen/Gates.vio
 Props/C12.vos Props/C12.vok Props/C12.required_vos: Props/C12.v Base/Plan.vos Model/Gates.vos Proofs/Gates.vos Gen/Consts.vos Gen/Gates.vos
